@@ -78,7 +78,10 @@ def run_phase(ctx, res, prop, n_quick=36, n_thorough=400):
             continue
         k = max(0, v["at"] - 1)
         cause = t["ev"][k]["cause"] if k < len(t["ev"]) else "client"
-        if owner(v["clause"], cause) != prop:
+        # C03 ("no client request takes the manager down or goes unanswered") also reports these two clauses whatever
+        # the environment did during the request, as long as it is something the manager must survive
+        c03_also = prop == "C03" and v["clause"] in ("StoppedForSurvivableCause", "ReplyWithoutErrorCode")
+        if owner(v["clause"], cause) != prop and not c03_also:
             accepted += 1          # not this property's clause: its owner reports it
             continue
         inf = info[t["id"]]
